@@ -932,7 +932,7 @@ func genJar(t *rapid.T) JarCase {
 			op.Path = "/go"
 			mk := func(label string) []JCookie {
 				if rapid.Bool().Draw(t, label+"has") {
-					return []JCookie{{Key: "k1", Val: fmt.Sprintf("v%d_%s", i, label), Exp: rapid.SampledFrom([]string{"session", "far"}).Draw(t, label+"exp")}}
+					return []JCookie{{Key: "k1", Val: fmt.Sprintf("v%d_%s", i, label), Exp: rapid.SampledFrom(map[bool][]string{true: {"session", "far", "past", "past"}, false: {"session", "far"}}[label == "hop1"]).Draw(t, label+"exp")}} // (the redirecting answer may delete the cookie: a logout)
 				}
 				return nil
 			}
